@@ -228,8 +228,24 @@ func seedSCTE35(r *gen.Rand) []byte {
 	return s.Payload()
 }
 
+var seedPIDs []int // the elementary PIDs of every program-map section of the last PMT seed
+
 func seedPMT(r *gen.Rand) []byte {
 	p := ref.GenPMT(r, -1)
+	seedPIDs = seedPIDs[:0]
+	for _, s := range p.Streams {
+		seedPIDs = append(seedPIDs, s.PID)
+	}
+	if r.Chance(5) {
+		// two program-map sections in one payload (the later one wins); the first lists more streams
+		q := ref.GenPMT(r, 1+r.Intn(3))
+		if len(q.Streams) < len(p.Streams) {
+			for _, s := range q.Streams {
+				seedPIDs = append(seedPIDs, s.PID)
+			}
+			return append(ref.PointerPrefix(0), append(p.Section(), q.Section()...)...)
+		}
+	}
 	b := append(ref.PointerPrefix(r.PickInt([]int{0, 0, 0, 1, 5, 100})), p.Section()...)
 	if r.Chance(4) {
 		b = append(ref.PointerPrefix(0), append(ref.GenOtherSection(r), p.Section()...)...)
@@ -442,7 +458,20 @@ func drivePMT(b []byte) {
 		return nil
 	}, "PMT", func(v interface{}) {
 		x := v.(psi.PMT)
+		call("PMT.queries-by-PID", b, false, func() {
+			for _, pid := range seedPIDs {
+				x.IsPidForStreamWherePresentationLagsEbp(pid)
+				x.PIDExists(pid)
+			}
+		})
 		call("PMT.RemoveElementaryStreams", b, false, func() { x.RemoveElementaryStreams(append([]int{1, 2}, x.Pids()...)) })
+		call("PMT.queries-by-PID-after-removal", b, false, func() {
+			for _, pid := range seedPIDs {
+				x.IsPidForStreamWherePresentationLagsEbp(pid)
+				x.PIDExists(pid)
+			}
+			_ = x.String()
+		})
 	})
 	drivePSI(b)
 }
@@ -684,6 +713,30 @@ func driveStream(b []byte, pid int) {
 		}
 		acc.Reset()
 	})
+	if len(b) >= 188 && len(b)%7 == 0 {
+		call("packet.Accumulator(long unit, Reset, queries)", b, true, func() {
+			// a unit far longer than any PSI table (more than 64 KiB of payload), then Reset and every query
+			acc := packet.NewAccumulator(func([]byte) (bool, error) { return false, nil })
+			var pk packet.Packet
+			copy(pk[:], b)
+			pk[0], pk[1], pk[3] = 0x47, pk[1]|0x40, 0x10
+			acc.WritePacket(&pk)
+			pk[1] &^= 0x40
+			for i := 0; i < 400; i++ {
+				pk[4] = byte(i)
+				acc.WritePacket(&pk)
+			}
+			acc.Reset()
+			acc.Bytes()
+			acc.Packets()
+			acc.WritePacket(&pk)
+			acc.Bytes()
+			pk[1] |= 0x40
+			acc.WritePacket(&pk)
+			acc.Bytes()
+			acc.Packets()
+		})
+	}
 	call("packet.IOWriter.Write", b, true, func() { packet.IOWriter(&sinkW{}).Write(b) })
 	call("packet.IOWriter.ReadFrom", b, true, func() {
 		packet.IOWriter(&sinkW{}).(io.ReaderFrom).ReadFrom(bufio.NewReaderSize(bytes.NewReader(b), 16+len(b)%500))
@@ -923,12 +976,21 @@ func run(c *mon.Ctx) {
 						af.SetHasAdaptationFieldExtension(flags&0x01 == 0)
 					case 3:
 						af.SetTransportPrivateData([]byte{1, 2, 3})
+						af.SetTransportPrivateData(make([]byte, tl)) // exactly the announced length
 					case 4:
 						af.SetAdaptationFieldExtension([]byte{1})
+						af.SetAdaptationFieldExtension(make([]byte, int(q[188-1]))) // some length taken from the packet
 					case 5:
 						af.SetHasSplicingPoint(flags&0x04 == 0)
 					default:
 						af.SetHasOPCR(flags&0x08 == 0)
+					}
+				})
+				qs := pk
+				call("(*AdaptationField).SetTransportPrivateData(announced length)", qs[:], false, func() {
+					if af, err := qs.AdaptationField(); err == nil {
+						af.SetTransportPrivateData(make([]byte, tl))
+						af.SetAdaptationFieldExtension(make([]byte, int(qs[10])))
 					}
 				})
 				q2 := pk
